@@ -1482,7 +1482,40 @@ fn run_kac(fam: &str, maxlen: &str, prefix_hex: &str) -> String {
         }
         out
     });
-    format!("kac {} {} {}\tres={}", fam, maxlen, prefix_hex, r.unwrap_or_else(|_| "panic".into()))
+    // what the automaton itself reports on every haystack (in its order): start, end, pattern
+    // index per match, haystacks separated by commas; and max_pattern_len
+    let ms = guarded(|| {
+        let mut out = String::new();
+        let mut maxlen_seen = None;
+        for (i, h) in kac_words(n).iter().enumerate() {
+            let src = format!("{}{}", prefix, h);
+            if i > 0 {
+                out.push(',');
+            }
+            match minijinja::verif_hooks::start_marker_matches(&src, prefix.len(), &syn) {
+                Some((v, m)) => {
+                    maxlen_seen = Some(m);
+                    for (s, e, p) in v {
+                        out.push(kern_digit(Some(s)));
+                        out.push(kern_digit(Some(e)));
+                        out.push(kern_digit(Some(p)));
+                    }
+                }
+                None => return ("-".to_string(), None),
+            }
+        }
+        (out, maxlen_seen)
+    });
+    let (ms, mx) = ms.unwrap_or_else(|_| ("panic".into(), None));
+    format!(
+        "kac {} {} {}\tres={}\tms={}\tmax={}",
+        fam,
+        maxlen,
+        prefix_hex,
+        r.unwrap_or_else(|_| "panic".into()),
+        ms,
+        mx.map(|x| x.to_string()).unwrap_or_else(|| "-".into())
+    )
 }
 
 #[cfg(not(feature = "hooks"))]
